@@ -1167,13 +1167,13 @@ static void hist_run(const std::vector<std::string> &plan, Child &c) {
             run_with(p, nullptr, meta, RUN_EXEC, a);
             run_with(p, nullptr, meta, RUN_EXEC, b);
             uint64_t ha = hash_outputs(meta, a), hb = hash_outputs(meta, b);
-            c.event("  subject %zu out=%016llx", si, (unsigned long long)ha);
+            c.event("  subject %zu out=%016llx mxcsr=%#x", si, (unsigned long long)ha, (unsigned)__builtin_ia32_stmxcsr());
             if (ha != hb) c.violation("determinism", "repeated-run-differs", strf("subject %zu: two runs of the same code on the same inputs differ", si));
             c.count("subject.runs");
             // ... and regardless of what was compiled, run or freed before: the same fixed inputs at every point of
             // the history must give the outputs they gave the first time
             RunData pr3;
-            make_inputs(meta, mix2(0x9e0be, si), 0, pr3);
+            make_inputs(meta, mix2(0x9e0be, si), 64, pr3);
             run_with(p, nullptr, meta, RUN_EXEC, pr3);
             uint64_t hp = hash_outputs(meta, pr3);
             if (!s.have_out) { s.out_hash = hp; s.have_out = true; }
